@@ -453,7 +453,7 @@ def check_text(ctx, case, records, written, text, descriptors, indent, cfgname, 
                       detail=dict(base, document=repr(other[0][1])[:300]))
     for k, val in other:
         ctx.event("descriptor_documents")
-        if list(val.keys()) != ["_type", "_data"] or not (isinstance(val["_data"], list) and len(val["_data"]) == 2):
+        if sorted(val.keys()) != ["_data", "_type"] or not (isinstance(val["_data"], list) and len(val["_data"]) == 2):
             ctx.violation(None, "a record descriptor document does not have the keys _type, _data", detail=dict(base, keys=list(val.keys())))
         if k in strict_rejected:
             ctx.violation(None, "a record descriptor document is rejected by a strict JSON parser", detail=dict(base, error=strict_rejected[k]))
